@@ -50,6 +50,10 @@ CHECKS["C07"] = ("exploration",
    "2-4 client tasks share one cold schema value, prepared plans and one plan cache (size 1-3, Normalize on/off) and issue Do / Get+ExecutePlan / ExecutePlan on a shared plan / ValidateDocument / Reset; the seeded scheduler interleaves them at client steps, every instrumented callback and the library's verif yield hooks (before each lock, the executor start and result send). Oracles: Go race detector on a -race build with every simulator hand-off hidden from it (runtime.RaceDisable), so that only the library's own synchronisation orders accesses and a race becomes a deterministic function of the chosen schedule; no panic; no deadlock / all clients finish; each response byte-equal to the same request run alone on a separately built cold schema; cache entry bound at every step.",
    "Trusted: runtime.RaceDisable hiding of scheduler hand-offs (a harness-only race is reported as infrastructure error, exit 2), the happens-before race detector (reports races between accesses that actually occur in the explored schedules), go1.26.8 testing/synctest. Package-level lazily initialised state is cold only in the first run of each worker process.",
    "seeded interleaving search with the race detector as oracle (simulator synchronisation hidden from it)", "§5 C07, §2.4")
+CHECKS["C20"] = ("exploration",
+   "Scoped to what depends on history and schedule (DESIGN.md §5 C20): one plan (prepared directly, obtained through the plain or the normalising cache, or re-planned per call) is executed 1-9 times by 1-3 interleaved client tasks, each execution with its own root token, variables, runtime-type variant, optional panicking extension hook and hostile resolvers that scribble over the argument map / variable map they were handed. Every resolver, type-resolver and isTypeOf invocation checks locally that its source is the token its parent produced in this execution, that ParentType is the runtime type, ReturnType the declared type, Path / FieldASTs / occurrence count / Operation / Fragments / RootValue / Schema are this request's, that directly variable-fed arguments carry the supplied values, that no argument or variable shows another invocation's writes, and that the context arrived; per-path arguments, resolved-path sets, response keys (independent selection-set oracle) and responses are compared with the same execution run alone.",
+   "Trusted: tokens name (type, path, execution) by construction; the per-path comparison uses the same library code run alone, so a wrong coercion that is identical in both is outside this check (C05/C01). Whether the set of selected fields is right is only checked through the independent response-key oracle (sim/selcheck.go).",
+   "seeded plan-reuse histories and interleavings with hostile callbacks, local parameter invariants", "§5 C20")
 REASONS_PENDING = "claimed in DESIGN.md; the check is still under construction and is therefore not registered yet"
 ALL = ["C%02d" % i for i in range(1, 21)]
 hooks_commit = "0e04175"
